@@ -17,5 +17,10 @@ Structural(o, i) == LET n == o.nodes[i + 1] IN
                     n.d = "ElseJump" \/ (n.d \in {"List", "CommaList"} /\ n.p >= 0 /\ n.p < Len(o.nodes) /\ o.nodes[n.p + 1].d = n.d)
 KF_C04Attr(o, missing) == IF \A i \in missing : Structural(o, i) THEN "C04-structural-nodes-own-no-instruction"
                           ELSE IF HasSideEffect(o) THEN "C04-side-effect-blocks" ELSE "NEW"
+(* C05-empty-brackets-build-nothing: an empty group or an expression body that is an empty group (`( )`, `{ ( ) }`) emits no
+   instruction, so the jump-table entry pushed for it (the program entry / the expression body) equals the instruction
+   count at that moment and points past the end of the stream. *)
+EmptyGroup(o) == \E i \in DOMAIN o.nodes : o.nodes[i].d = "Group" /\ o.nodes[i].r < 0
+KF_C05(o, why) == IF EmptyGroup(o) THEN "C05-empty-brackets-build-nothing" ELSE IF HasSideEffect(o) THEN "C04-side-effect-blocks" ELSE "NEW"
 KF_Compile(o) == IF "nodes" \in DOMAIN o /\ HasSideEffect(o) THEN "C04-side-effect-blocks" ELSE "NEW"
 ==============================================================================
